@@ -64,7 +64,7 @@ def judge (line : String) : String :=
         if obs.length ≠ msgs.length then "bad wrong number of messages reported"
         else if agreesDoc 0 msgs obs && dep = (docFinal 0 msgs).length then "ok"
         else if agreesPlain 0 msgs obs && dep = (plainFinal 0 msgs).length && !(wellFormed 0 msgs) then
-          "bad base-pop: UnBecomeStacked with nothing stacked removed the base behaviour; documented handlers " ++
+          "bad base-pop (regression of C14-F1): UnBecomeStacked with nothing stacked removed the base behaviour; documented handlers " ++
             " ".intercalate ((docHandlers 0 msgs).map showH)
         else "bad handler or stack depth differs from the documented stack; documented handlers " ++
             " ".intercalate ((docHandlers 0 msgs).map showH) ++ s!" depth {(docFinal 0 msgs).length}"
